@@ -65,6 +65,8 @@ func TestVerif(t *testing.T) {
 		replayMain(t)
 	case "super":
 		os.Exit(superMain(t))
+	case "race":
+		raceMain(t)
 	default:
 		t.Skip("VERIF_MODE not set")
 	}
@@ -309,7 +311,19 @@ func replayMain(t *testing.T) {
 		os.Exit(2)
 	}
 	relax := parseRelax(os.Getenv("VERIF_RELAX"))
-	v := ck.Eval(t, c, NewStats(), relax)
+	var v *Violation
+	if c.S["mode"] == "race" {
+		// replay of a data race: run the case free-running in the -race build
+		bin := filepath.Join(workRoot(), "build", "sim.race.test")
+		cmd := exec.Command(bin, "-test.run", "^TestVerif$", "-test.timeout", "0")
+		cmd.Env = append(os.Environ(), "VERIF_MODE=race", "GOMAXPROCS=4", "GORACE=halt_on_error=1 exitcode=66")
+		out, _ := cmd.CombinedOutput()
+		if i := strings.Index(string(out), "WARNING: DATA RACE"); i >= 0 && strings.Contains(string(out)[i:], "github.com/pojntfx/stfs/") {
+			v = &Violation{Prop: c.Prop, Oracle: "data-race", Detail: tail(string(out)[i:], 2500)}
+		}
+	} else {
+		v = ck.Eval(t, c, NewStats(), relax)
+	}
 	res := replayResult{V: v}
 	if v != nil && c.Expect != nil && v.Oracle == c.Expect.Oracle {
 		res.Match = true
@@ -594,6 +608,15 @@ func superMain(t *testing.T) int {
 		}
 	}
 
+	// 4. C11 only: the same programs free-running in a -race build
+	if prop == "C11" {
+		rv, rbroken := raceMode(master, tier, relaxCSV, total)
+		violations = append(violations, rv...)
+		if rbroken {
+			broken = true
+		}
+	}
+
 	wall := time.Since(start).Seconds()
 	writeEvidence(ck, prop, tier, master, total, wall, len(violations), nKnown, relax)
 	sort.Strings(violations)
@@ -673,4 +696,152 @@ func writeEvidence(ck *Check, prop, tier string, master uint64, st *Stats, wall 
 	b, _ := json.MarshalIndent(ev, "", " ")
 	os.MkdirAll(filepath.Join(workRoot(), "evidence"), 0o755)
 	os.WriteFile(filepath.Join(workRoot(), "evidence", prop+".json"), b, 0o644)
+}
+
+// ---------------------------------------------------------------- race mode (C11)
+
+// runFree executes the client programs of a C11 case as free-running goroutines
+// (no scheduler, real clock): what the race detector needs.
+func runFree(c *Case) error {
+	w, err := NewWorld(c.Cfg, nil)
+	if err != nil {
+		return err
+	}
+	defer w.Close()
+	stk, err := w.Open(OpenOpts{})
+	if stk != nil {
+		defer stk.Close()
+	}
+	if err != nil {
+		return err
+	}
+	var wg sync.WaitGroup
+	for ci, prog := range c.Progs {
+		wg.Add(1)
+		go func(ci int, prog []Op) {
+			defer wg.Done()
+			ex := NewExec(stk.FS, nil)
+			r := rand.New(rand.NewPCG(c.Seed, uint64(ci)))
+			for _, op := range prog {
+				if r.IntN(4) == 0 {
+					time.Sleep(time.Duration(r.IntN(200)) * time.Microsecond)
+				}
+				ex.Do(op)
+			}
+			ex.CloseAll()
+		}(ci, prog)
+	}
+	done := make(chan struct{})
+	go func() { wg.Wait(); close(done) }()
+	select {
+	case <-done:
+		Observe(stk.FS, "/", ObsOpts{})
+		return nil
+	case <-time.After(90 * time.Second):
+		return fmt.Errorf("timeout")
+	}
+}
+
+func raceMain(t *testing.T) {
+	ck := Checks["C11"]
+	master := envU64("VERIF_SEED", 1)
+	wi, nw := envInt("VERIF_WORKER", 0), envInt("VERIF_NW", 1)
+	runs := envInt("VERIF_RUNS", 100)
+	deadline := time.Now().Add(time.Duration(envInt("VERIF_BUDGET_S", 20)) * time.Second)
+	relax := parseRelax(os.Getenv("VERIF_RELAX"))
+	if p := os.Getenv("VERIF_REPLAY"); p != "" {
+		c, err := readCase(p)
+		if err != nil {
+			os.Exit(2)
+		}
+		for i := 0; i < 5; i++ {
+			runFree(c)
+		}
+		return
+	}
+	n := 0
+	for idx := uint64(wi); idx < uint64(runs) && time.Now().Before(deadline); idx += uint64(nw) {
+		seed := mix(master, idx)
+		c := ck.Gen(rand.New(rand.NewPCG(seed, 0xC0FFEE)), tierOf(), relax)
+		c.Prop, c.Seed = "C11", seed
+		fmt.Printf("RACE-START %d %d\n", idx, seed)
+		if err := runFree(c); err != nil {
+			fmt.Printf("RACE-TIMEOUT %d\n", idx)
+			os.Exit(3)
+		}
+		n++
+	}
+	fmt.Printf("RACE-DONE %d\n", n)
+}
+
+// raceMode runs the race binary (if it was built) and turns data-race reports
+// that name frames of the code under test into violations.
+func raceMode(master uint64, tier, relaxCSV string, total *Stats) ([]string, bool) {
+	bin := filepath.Join(workRoot(), "build", "sim.race.test")
+	if _, err := os.Stat(bin); err != nil {
+		fmt.Println("race build not available: race mode skipped")
+		total.Add("race_mode_skipped", 1)
+		return nil, true
+	}
+	nw, secs, runs := 4, 20, 400
+	if tier == "thorough" {
+		secs, runs = 600, 20000
+	}
+	var mu sync.Mutex
+	var violations []string
+	broken := false
+	var wg sync.WaitGroup
+	for i := 0; i < nw; i++ {
+		wg.Add(1)
+		go func(i int) {
+			defer wg.Done()
+			cmd := exec.Command(bin, "-test.run", "^TestVerif$", "-test.timeout", "0")
+			cmd.Env = append(os.Environ(), "VERIF_MODE=race", fmt.Sprintf("VERIF_WORKER=%d", i), fmt.Sprintf("VERIF_NW=%d", nw), fmt.Sprintf("VERIF_RUNS=%d", runs),
+				fmt.Sprintf("VERIF_BUDGET_S=%d", secs), "VERIF_RELAX="+relaxCSV, fmt.Sprintf("VERIF_SEED=%d", master), "VERIF_TIER="+tier, "GOMAXPROCS=4", "GORACE=halt_on_error=1 exitcode=66")
+			out, err := cmd.CombinedOutput()
+			text := string(out)
+			mu.Lock()
+			defer mu.Unlock()
+			n := strings.Count(text, "RACE-START")
+			total.Add("race_mode_runs", int64(n))
+			if err == nil {
+				return
+			}
+			if !strings.Contains(text, "WARNING: DATA RACE") {
+				fmt.Printf("race worker %d ended abnormally (%v): %s\n", i, err, tail(text, 1500))
+				broken = true
+				return
+			}
+			report := text[strings.Index(text, "WARNING: DATA RACE"):]
+			if !strings.Contains(report, "github.com/pojntfx/stfs/") {
+				fmt.Printf("data race outside the code under test (harness?):\n%s\n", tail(report, 3000))
+				broken = true
+				return
+			}
+			// which run?
+			var idx, seed uint64
+			lines := strings.Split(text[:strings.Index(text, "WARNING: DATA RACE")], "\n")
+			for _, l := range lines {
+				fmt.Sscanf(l, "RACE-START %d %d", &idx, &seed)
+			}
+			ck := Checks["C11"]
+			c := ck.Gen(rand.New(rand.NewPCG(seed, 0xC0FFEE)), tier, parseRelax(relaxCSV))
+			c.Prop, c.Seed, c.Tier = "C11", seed, tier
+			c.S["mode"] = "race"
+			c.Expect = &Violation{Prop: "C11", Oracle: "data-race", Detail: tail(report, 2500)}
+			p := filepath.Join(workRoot(), "replays", fmt.Sprintf("C11-%d-race-%d.json", master, idx))
+			writeCase(p, c)
+			fmt.Printf("data race in run idx=%d seed=%d:\n%s\n", idx, seed, tail(report, 2500))
+			violations = append(violations, fmt.Sprintf("VIOLATION property=C11 replay=%s", p))
+		}(i)
+	}
+	wg.Wait()
+	return violations, broken
+}
+
+func tail(s string, n int) string {
+	if len(s) > n {
+		return s[len(s)-n:]
+	}
+	return s
 }
